@@ -73,13 +73,23 @@ def programs(bases=None, prefix=""):
     progs = []
     B1, B2, B3_PRE, B3 = bases if bases else (globals()["B1"], globals()["B2"], globals()["B3_PRE"], globals()["B3"])
 
-    def emit(name, pre, d, fail, cls):
+    def emit(name, pre, d, fail, cls, _interleave=True):
         head = PRE.splitlines() + [""]
         lines = head + pre
         first = len(lines) + 1
         lines = lines + d
         last = len(lines)
         progs.append((prefix + name, "\n".join(lines) + MAIN, (first, last), fail, cls))
+        # the same definition with documentation / lint attributes BETWEEN the unit attributes: where an attribute
+        # stands must not decide whether it is validated
+        units = [i for i, l in enumerate(d) if l.lstrip().startswith(("#[unit", "#[ref_unit"))]
+        if _interleave and len(units) >= 2:
+            d2 = []
+            for i, l in enumerate(d):
+                if i in units[1:]:
+                    d2.append("/// interleaved documentation" if (i % 2) else "#[allow(dead_code)]")
+                d2.append(l)
+            emit("il_" + name, pre, d2, fail, cls + " (unit attributes interleaved with other attributes)", _interleave=False)
     # compiling twins
     emit("ok_b1", [], B1, False, "twin")
     emit("ok_b2", [], B2, False, "twin")
@@ -303,8 +313,8 @@ def run(ctx):
                 ctx.ob("ui-expected-error", "%s/%d:%d" % (name, loc[0], loc[1]), bool(hit),
                        "the repository records an error at %d:%d (%r); none is reported there; got %s" % (
                            loc[0], loc[1], msg[:60], [(e[1].splitlines()[0][:60], e[3], e[4]) for e in errs][:3]), where, nontrivial=(code is None))
-    ctx.floor("compile-fail witnesses", n_fail, (200 + 13) if ctx.tier != "thorough" else (4 * 200 + 13))
-    ctx.floor("compiling twins", n_pass, 4 if ctx.tier != "thorough" else 16)
+    ctx.floor("compile-fail witnesses", n_fail, (380 + 13) if ctx.tier != "thorough" else (4 * 380 + 13))
+    ctx.floor("compiling twins", n_pass, 8 if ctx.tier != "thorough" else 32)
     ctx.extra["witness_dir"] = d
     ctx.rule_text = "one program per defect class x base definition, each type-checked on its own (cargo check --examples --keep-going); verdict = rustc error inside the offending definition; twins must compile"
     ctx.trusted = ["rustc / cargo diagnostics (JSON)", "the witness corpus is finite: malformed definitions outside it are not decided"]
